@@ -129,6 +129,14 @@ def replay(path):
     cf = os.path.join(d, "replay.case")
     open(cf, "w").write(line + "\n")
     impl = vlib.run_harness_resilient(hexe, (), cf, 1, 120).get(0, "MISSING")
+    if re.search(transforms.BOOL_KINDS, line) or re.search(r"\| F [^|]*\bb\d", line):
+        # sub-stream transforms-bool: the model does not know boolean statements
+        w = transforms.oracle(line, impl, None)
+        print("input:          ", line)
+        print("implementation: ", impl)
+        print("model:           (none: oracle-only stream)")
+        print("oracle:         ", w or "property holds on the implementation's answer (sampled executions)")
+        return 1 if w else 0
     rc, out = vlib.sh([dexe, cf], timeout=120)
     model = out.strip().split(" ", 2)[2] if out.startswith("R 0 ") else out.strip()
     print("input:          ", line)
